@@ -403,11 +403,15 @@ Fixpoint zip_sub (ds : list bytes) (qs : list sreq) : list sresp :=
   | d :: ds', q :: qs' => sub_response q d :: zip_sub ds' qs'
   | _, _ => []
   end.
+(* self.raw[49:50] == b"\x00": the reply announces no additional status *)
+Definition no_additional_status (raw : bytes) : bool :=
+  match slice 49 50 raw with [b] => b =? 0 | _ => false end.
 (* MultiServiceResponsePacket._parse_reply: nothing is split when the reply could not be parsed,
-   is an encapsulation error, or carries no data (`not self.data`) *)
+   is an encapsulation error, announces additional status (an error reply: what follows is not
+   service replies), or carries no data (`not self.data`) *)
 Definition parse_multi (reqs : list sreq) (raw : bytes) : resp * list sresp :=
   let r := parse_unit raw in
-  if is_some (r_error r) || negb (opt_is (r_command_status r) SUCCESS) then (r, [])
+  if is_some (r_error r) || negb (opt_is (r_command_status r) SUCCESS) || negb (no_additional_status raw) then (r, [])
   else match r_data r with
        | None => (r, [])
        | Some [] => (r, [])
